@@ -66,7 +66,11 @@ func (fx *FnExec) pureFuncOf(fn *ssa.Function) bool {
 // program (slice results are allocated, type facts are assumed); otherwise it occurs in
 // a contract expression.
 func (fx *FnExec) pureApply(st *State, full string, sig *types.Signature, recv *Term, args []*Term, atCode bool) []*Term {
-	fx.root().trusted("assumption A4: " + pureOrigin(full) + " is a deterministic, side-effect-free function of its arguments (identity of returned wrapper objects included)")
+	if strings.Contains(full, modPath+"/") && !strings.HasPrefix(full, "iface ") {
+		fx.root().trusted("pure function of /repo (static obligation pure-funcs): " + full + " is applied as an uninterpreted function of its arguments; arguments on which it panics are outside the grammar (A4)")
+	} else {
+		fx.root().trusted("assumption A4: " + pureOrigin(full) + " is a deterministic, side-effect-free function of its arguments (identity of returned wrapper objects included)")
+	}
 	var all []*Term
 	var sorts []Sort
 	if recv != nil {
